@@ -1,1 +1,13 @@
 import Reamber.Props.C13
+#print axioms Reamber.Rate.schema_tie
+#print axioms Reamber.Rate.rateLists_scales
+#print axioms Reamber.Rate.rateChart_scales
+#print axioms Reamber.Rate.rateSet_scales
+#print axioms Reamber.Rate.rateSet_spec
+#print axioms Reamber.Rate.rate_one
+#print axioms Reamber.Rate.rate_comp
+#print axioms Reamber.Rate.rate_inverse
+#print axioms Reamber.Rate.rateSet_sm_offset_none
+#print axioms Reamber.Rate.Stage.step
+#print axioms Reamber.Rate.updateWith_slices
+#print axioms Reamber.Rate.reindex_mapAll_reindex
